@@ -575,7 +575,8 @@ func (cs *caseRun) stepIdle(p *peer) {
 	closed := p.waitEOF(limit)
 	if !closed {
 		cs.notes = append(cs.notes, fmt.Sprintf("connection %d not closed after %v of silence", p.id, limit))
-		cs.emitTimeouts()
+		// the model is asked whether the deadline of this connection is armed
+		cs.emit(fmt.Sprintf("hostile in %d idle", p.id), cs.observe("none"))
 		return
 	}
 	cs.afterClose(p)
